@@ -18,6 +18,7 @@
 package tsdb
 
 import (
+	"errors"
 	"fmt"
 	"io"
 	"strconv"
@@ -31,6 +32,7 @@ import (
 	"go.uber.org/atomic"
 
 	"github.com/lindb/lindb/config"
+	"github.com/lindb/lindb/constants"
 	"github.com/lindb/lindb/flow"
 	"github.com/lindb/lindb/kv"
 	"github.com/lindb/lindb/metrics"
@@ -392,17 +394,26 @@ func (f *dataFamily) MemDBSize() int64 {
 // if it finds data then returns the FilterResultSet, else returns nil
 func (f *dataFamily) Filter(executeCtx *flow.ShardExecuteContext) (resultSet []flow.FilterResultSet, err error) {
 	f.lastReadTime.Store(fasttime.UnixMilliseconds())
-	memRS, err := f.memoryFilter(executeCtx)
-	if err != nil {
-		return nil, err
+	// NOTE: not found in memory(or files) just means the other one holds all matched series,
+	// cannot ignore the result of the other one.
+	memRS, memErr := f.memoryFilter(executeCtx)
+	if memErr != nil && !errors.Is(memErr, constants.ErrNotFound) {
+		return nil, memErr
 	}
-	fileRS, err := f.fileFilter(executeCtx)
-	if err != nil {
-		return nil, err
+	fileRS, fileErr := f.fileFilter(executeCtx)
+	if fileErr != nil && !errors.Is(fileErr, constants.ErrNotFound) {
+		return nil, fileErr
 	}
 	resultSet = append(resultSet, memRS...)
 	resultSet = append(resultSet, fileRS...)
-	return
+	if len(resultSet) == 0 {
+		// not found in memory and files
+		if memErr != nil {
+			return nil, memErr
+		}
+		return nil, fileErr
+	}
+	return resultSet, nil
 }
 
 // GetState returns the current state include memory database state.
@@ -452,9 +463,15 @@ func (f *dataFamily) GetState() models.DataFamilyState {
 }
 
 func (f *dataFamily) memoryFilter(shardExecuteContext *flow.ShardExecuteContext) (resultSet []flow.FilterResultSet, err error) {
+	var notFound error
 	memFilter := func(memDB memdb.MemoryDatabase) error {
 		rs, err := memDB.Filter(shardExecuteContext)
 		if err != nil {
+			if errors.Is(err, constants.ErrNotFound) {
+				// not found in this memory database, the other one may hold the matched series
+				notFound = err
+				return nil
+			}
 			return err
 		}
 		resultSet = append(resultSet, rs...)
@@ -472,7 +489,10 @@ func (f *dataFamily) memoryFilter(shardExecuteContext *flow.ShardExecuteContext)
 			return nil, err
 		}
 	}
-	return
+	if len(resultSet) == 0 {
+		return nil, notFound
+	}
+	return resultSet, nil
 }
 
 func (f *dataFamily) fileFilter(shardExecuteContext *flow.ShardExecuteContext) (resultSet []flow.FilterResultSet, err error) {
